@@ -878,6 +878,11 @@ struct ScriptLayer<'a, M> {
     u: &'a Universe,
     o: &'a AObs,
     log: Log,
+    /// The layer's types depend on what its callbacks found out (`create` / `update` take `&mut self`):
+    /// until one of them has run - or it is settled that none will (Keep, replaced metadata) - `types()`
+    /// answers the opposite of the scripted flags. "Will be called ... after create, update and when the
+    /// layer is not modified at all."
+    settled: std::cell::Cell<bool>,
     _m: std::marker::PhantomData<M>,
 }
 
@@ -927,11 +932,16 @@ impl<M: MdType> Layer for ScriptLayer<'_, M> {
     type Metadata = M;
 
     fn types(&self) -> LayerTypes {
-        LayerTypes { build: self.o.ty.build, launch: self.o.ty.launch, cache: self.o.ty.cache }
+        if self.settled.get() {
+            LayerTypes { build: self.o.ty.build, launch: self.o.ty.launch, cache: self.o.ty.cache }
+        } else {
+            LayerTypes { build: !self.o.ty.build, launch: !self.o.ty.launch, cache: !self.o.ty.cache }
+        }
     }
 
     fn create(&mut self, ctx: &BuildContext<TB>, layer_path: &Path) -> Result<LayerResult<M>, TErr> {
         let _p = Pause::new();
+        self.settled.set(true);
         let empty = fs::read_dir(layer_path).map(|mut d| d.next().is_none()).unwrap_or(false);
         let mut c = call("create", no_md(), "none", empty);
         if layer_path != ctx.layers_dir.join(&self.o.n) {
@@ -945,8 +955,12 @@ impl<M: MdType> Layer for ScriptLayer<'_, M> {
         let _p = Pause::new();
         self.log.borrow_mut().push(call("strategy", d.content_metadata.metadata.project(self.u), &self.u.env_token_at(&d.env, &d.path), false));
         match self.o.strat.k.as_str() {
-            "Default" => PlainLayer::<M> { types: self.types(), _m: std::marker::PhantomData }.existing_layer_strategy(_ctx, d),
-            "Keep" => Ok(ExistingLayerStrategy::Keep),
+            "Default" => {
+                let r = PlainLayer::<M> { types: self.types(), _m: std::marker::PhantomData }.existing_layer_strategy(_ctx, d);
+                if matches!(r, Ok(ExistingLayerStrategy::Keep)) { self.settled.set(true); }
+                r
+            }
+            "Keep" => { self.settled.set(true); Ok(ExistingLayerStrategy::Keep) }
             "Update" => Ok(ExistingLayerStrategy::Update),
             "Recreate" => Ok(ExistingLayerStrategy::Recreate),
             "Err" => Err(TErr("strategy".into())),
@@ -960,6 +974,7 @@ impl<M: MdType> Layer for ScriptLayer<'_, M> {
     fn update(&mut self, _ctx: &BuildContext<TB>, d: &LayerData<M>) -> Result<LayerResult<M>, TErr> {
         let _p = Pause::new();
         self.log.borrow_mut().push(call("update", d.content_metadata.metadata.project(self.u), &self.u.env_token_at(&d.env, &d.path), false));
+        self.settled.set(true);
         if self.o.ures.k == "Default" {
             return PlainLayer::<M> { types: self.types(), _m: std::marker::PhantomData }.update(_ctx, d);
         }
@@ -970,9 +985,13 @@ impl<M: MdType> Layer for ScriptLayer<'_, M> {
         let _p = Pause::new();
         self.log.borrow_mut().push(call("migrate", md.project(self.u), "none", false));
         match self.o.mig.k.as_str() {
-            "Default" => PlainLayer::<M> { types: self.types(), _m: std::marker::PhantomData }.migrate_incompatible_metadata(_ctx, md),
+            "Default" => {
+                let r = PlainLayer::<M> { types: self.types(), _m: std::marker::PhantomData }.migrate_incompatible_metadata(_ctx, md);
+                if matches!(r, Ok(MetadataMigration::ReplaceMetadata(_))) { self.settled.set(true); }
+                r
+            }
             "Recreate" => Ok(MetadataMigration::RecreateLayer),
-            "Replace" => Ok(MetadataMigration::ReplaceMetadata(M::make(self.u, &self.o.mig.md))),
+            "Replace" => { self.settled.set(true); Ok(MetadataMigration::ReplaceMetadata(M::make(self.u, &self.o.mig.md))) }
             "Err" => Err(TErr("migrate".into())),
             other => {
                 self.log.borrow_mut().push(call(&format!("UNSCRIPTED migrate ({other})"), no_md(), "none", false));
@@ -983,7 +1002,7 @@ impl<M: MdType> Layer for ScriptLayer<'_, M> {
 }
 
 fn run_trait<M: MdType>(u: &Universe, ctx: &BuildContext<TB>, name: &LayerName, o: &AObs, log: &Log) -> ARet {
-    let layer = ScriptLayer::<M> { u, o, log: log.clone(), _m: std::marker::PhantomData };
+    let layer = ScriptLayer::<M> { u, o, log: log.clone(), settled: std::cell::Cell::new(false), _m: std::marker::PhantomData };
     match ctx.handle_layer(name.clone(), layer) {
         Ok(d) => {
             let mut r = ret(true, "Data", "-", "-", d.content_metadata.metadata.project(u), &u.env_token_at(&d.env, &d.path));
